@@ -15,8 +15,8 @@
 (***************************************************************************)
 EXTENDS Integers, Sequences, FiniteSets, TLC
 
-CONSTANTS NVal,      \* number of validator identities
-          Win        \* vote window length = 3 * batchSize
+CONSTANTS NVal       \* number of validator identities
+\* the vote window length (3 * batchSize) is carried in votes.win
 
 Validators == 1..NVal
 
@@ -49,8 +49,8 @@ PruneKeys(ps, minReq) ==
   IF Cardinality(idx) <= 1 THEN ps
   ELSE LET keep == CHOOSE i \in idx : \A j \in idx : j <= i IN SubSeq(ps, keep, Len(ps))
 
-GenesisVotes(h0) ==
-  [infos |-> <<>>, vinfo |-> [v \in Validators |-> NoVInfo],
+GenesisVotes(h0, win) ==
+  [win |-> win, infos |-> <<>>, vinfo |-> [v \in Validators |-> NoVInfo],
    mhpv |-> h0, mhpc |-> h0, cert |-> h0, params |-> <<>>, gkeys |-> <<>>]
 
 CurHeight(votes) == IF Len(votes.infos) > 0 THEN votes.infos[1].h ELSE votes.mhpv
@@ -105,7 +105,7 @@ FirstReached(infos, ps, field, thr, dflt) ==
 \* hdr = [h, gen, mhg, mhp, acH, acNonEmpty]
 ApplyVotes(votes, hdr) ==
   LET new == [h |-> hdr.h, gen |-> hdr.gen, mhg |-> hdr.mhg, mhp |-> hdr.mhp, pv |-> 0, pc |-> 0]
-      ins == LET s == <<new>> \o votes.infos IN SubSeq(s, 1, Min2(Len(s), Win))
+      ins == LET s == <<new>> \o votes.infos IN SubSeq(s, 1, Min2(Len(s), votes.win))
       g == hdr.gen
       vi == votes.vinfo[g]
       ps == votes.params
@@ -134,7 +134,7 @@ Apply(votes, hdr) == Prune(ApplyVotes(votes, hdr))
 \* the Go code returns an error ("BFT parameters should always exist") when the oldest
 \* window height has no parameters
 ApplyDefined(votes, hdr) ==
-  LET n == Min2(Len(votes.infos) + 1, Win)
+  LET n == Min2(Len(votes.infos) + 1, votes.win)
       oldest == IF n = 1 THEN hdr.h ELSE votes.infos[n - 1].h
   IN HasParamsAt(votes.params, oldest)
 
